@@ -25,13 +25,18 @@ import (
 	"crypto/x509/pkix"
 	"encoding/asn1"
 	"encoding/hex"
+	"encoding/json"
+	"encoding/pem"
 	"errors"
 	"io"
 	"math/big"
 	"net"
+	"net/http"
+	"net/http/httptest"
 	"strings"
 	"time"
 
+	"github.com/go-jose/go-jose/v4"
 	"google.golang.org/grpc/credentials"
 
 	"istio.io/istio/pkg/spiffe"
@@ -46,6 +51,7 @@ type pkiCert struct {
 }
 
 type pkiFixture struct {
+	bundle *httptest.Server    // SPIFFE bundle endpoint: /<root>+<root>.. serves those roots as x509-svid keys
 	cas    map[string]*pkiCert // R1 R2 R3 RX I1 I2 I3 IE INC
 	server tls.Certificate
 	serial int64
@@ -101,6 +107,23 @@ func newPKIFixture() (*pkiFixture, error) {
 	}
 	f.server = tls.Certificate{Certificate: [][]byte{sder}, PrivateKey: skey}
 	return f, nil
+}
+
+func (f *pkiFixture) startBundleServer() error {
+	if f.bundle != nil {
+		return nil
+	}
+	f.bundle = httptest.NewTLSServer(http.HandlerFunc(func(w http.ResponseWriter, r *http.Request) {
+		doc := jose.JSONWebKeySet{}
+		for _, name := range strings.Split(strings.TrimPrefix(r.URL.Path, "/"), "+") {
+			if c := f.cas[name]; c != nil {
+				doc.Keys = append(doc.Keys, jose.JSONWebKey{Key: c.cert.PublicKey, Certificates: []*x509.Certificate{c.cert}, Use: "x509-svid"})
+			}
+		}
+		w.Header().Set("Content-Type", "application/json")
+		_ = json.NewEncoder(w).Encode(doc)
+	}))
+	return nil
 }
 
 type leafSpec struct {
@@ -196,15 +219,56 @@ func (f *pkiFixture) clientCert(l leafSpec, ints []string) (*tls.Certificate, er
 // server refused the client.
 func (f *pkiFixture) handshake(pools []string, client *tls.Certificate) (tls.ConnectionState, bool, error) {
 	verifier := spiffe.NewPeerCertVerifier()
+	// the registration paths of the real verifier, chosen by the pools' text: AddMapping, AddMappingFromPEM
+	// (what istiod's createPeerCertVerifier uses), AddMappings, and AddMappings of what the real
+	// RetrieveSpiffeBundleRootCerts fetched from a SPIFFE bundle endpoint (trust domain federation)
+	mode := len(strings.Join(pools, ",")) % 4
+	merged := map[string][]*x509.Certificate{}
+	endpoints := map[string]string{}
 	for _, p := range pools {
 		td, roots, _ := strings.Cut(p, "=")
 		var certs []*x509.Certificate
+		var pemBytes []byte
 		for _, r := range strings.Split(roots, "+") {
 			if c := f.cas[r]; c != nil {
 				certs = append(certs, c.cert)
+				pemBytes = append(pemBytes, pem.EncodeToMemory(&pem.Block{Type: "CERTIFICATE", Bytes: c.cert.Raw})...)
 			}
 		}
-		verifier.AddMapping(td, certs)
+		switch mode {
+		case 0:
+			verifier.AddMapping(td, certs)
+		case 1:
+			if err := verifier.AddMappingFromPEM(td, pemBytes); err != nil {
+				return tls.ConnectionState{}, false, err
+			}
+		default:
+			merged[td] = append(merged[td], certs...)
+		}
+	}
+	switch mode {
+	case 2:
+		verifier.AddMappings(merged)
+	case 3:
+		if len(merged) > 0 {
+			if err := f.startBundleServer(); err != nil {
+				return tls.ConnectionState{}, false, err
+			}
+			for td, certs := range merged {
+				var names []string
+				for _, c := range certs {
+					names = append(names, c.Subject.CommonName)
+				}
+				endpoints[td] = strings.TrimPrefix(f.bundle.URL, "https://") + "/" + strings.Join(names, "+")
+			}
+			pool := x509.NewCertPool()
+			pool.AddCert(f.bundle.Certificate())
+			fetched, err := spiffe.RetrieveSpiffeBundleRootCerts(endpoints, pool, 2*time.Second)
+			if err != nil {
+				return tls.ConnectionState{}, false, err
+			}
+			verifier.AddMappings(fetched)
+		}
 	}
 	// as in pilot/pkg/bootstrap/server.go initSecureDiscoveryService
 	scfg := &tls.Config{
